@@ -54,6 +54,15 @@ for pid in ids:
         t = open(n).read().strip().splitlines()[0].lstrip("# ").strip() if os.path.exists(n) and open(n).read().strip() else os.path.basename(d)
         files = ", ".join(sorted({l.split("|")[0].strip() for l in subprocess.run(["git", "apply", "--stat", os.path.join(d, "patch.diff")], capture_output=True, text=True, cwd="/repo").stdout.splitlines() if "|" in l}))
         taken.append(f"- {t} ({files})")
+    # changes of a round that is still being trialled (not yet under /verif/seeded)
+    stored = {os.path.basename(d)[-1] for d in glob.glob(f"/verif/seeded/{pid}?")}
+    for n in sorted(glob.glob(f"{SEED}/{pid}/?_notes.md")):
+        letter = os.path.basename(n)[0]
+        if letter in stored or letter in (v1, v2) or not open(n).read().strip():
+            continue
+        t = open(n).read().strip().splitlines()[0].lstrip("# ").strip()
+        files = ", ".join(sorted({l.split("|")[0].strip() for l in subprocess.run(["git", "apply", "--stat", f"{SEED}/{pid}/{letter}.diff"], capture_output=True, text=True, cwd="/repo").stdout.splitlines() if "|" in l}))
+        taken.append(f"- {t} ({files})")
     p = props[pid]
     note = ""
     if pid == "C15":
